@@ -40,6 +40,9 @@ type runRes struct {
 	tx       *types.Transaction
 	signed   []common.Address
 	setDiags []string
+	preOut   string
+	broken   string
+	seen     []common.Address
 }
 
 func verifyTx(tx *types.Transaction) (code string) {
@@ -130,7 +133,7 @@ func kidTable(byBytes map[string]int) map[string]int {
 	return out
 }
 
-func run(raw []byte, kid map[string]int) runRes {
+func run(raw []byte, kid map[string]int, pre []string) runRes {
 	tx, err := types.TransactionFromRawBytes(append([]byte{}, raw...))
 	if err != nil {
 		return runRes{out: "deser-err"}
@@ -143,8 +146,9 @@ func run(raw []byte, kid map[string]int) runRes {
 	for _, rs := range tx.Sigs {
 		diags = append(diags, setDiag(rs, h[:], kid))
 	}
+	preOut, broken := sg.ApplyPre(tx, raw, pre)
 	code := verifyTx(tx)
-	r := runRes{decoded: true, code: code, tx: tx, setDiags: diags}
+	r := runRes{decoded: true, code: code, tx: tx, setDiags: diags, preOut: preOut, broken: broken}
 	signed := "-"
 	if code == "ok" || code == "payload" {
 		r.signed = tx.SignedAddr
@@ -154,7 +158,12 @@ func run(raw []byte, kid map[string]int) runRes {
 	if len(diags) > 0 {
 		ds = strings.Join(diags, "/")
 	}
-	r.out = fmt.Sprintf("code=%s signed=%s sets=%s", code, signed, ds)
+	seen := "-"
+	if code != "PANIC" {
+		r.seen = tx.GetSignatureAddresses()
+		seen = sg.SortedAddrs(r.seen)
+	}
+	r.out = fmt.Sprintf("code=%s signed=%s sets=%s pre=%s seen=%s", code, signed, ds, preOut, seen)
 	return r
 }
 
@@ -339,6 +348,39 @@ func panicClass(tx *types.Transaction) string {
 	return "panic"
 }
 
+func preShape(pre []string) string {
+	var q []string
+	for _, p := range pre {
+		q = append(q, p[:1])
+	}
+	return strings.Join(q, ".")
+}
+
+// the verdict and the signer list must not depend on what happened to the object before validation
+func statePredicate(pl sg.PLine, r runRes, sigsOK bool) (string, string) {
+	if r.broken != "" {
+		return r.broken, "read-only-getter-broken"
+	}
+	if sigsOK && sg.SortedAddrs(r.seen) != sg.SortedAddrs(r.signed) {
+		return "GetSignatureAddresses() after an accepting validation differs from the validator's signer set", "seen-after-validation-differs"
+	}
+	if len(pl.Pre) == 0 {
+		return "", ""
+	}
+	fresh, err := types.TransactionFromRawBytes(append([]byte{}, pl.Raw...))
+	if err != nil {
+		return "", ""
+	}
+	fc := verifyTx(fresh)
+	if fc != r.code {
+		return fmt.Sprintf("verdict %s after %s on the object, %s on a freshly decoded copy", r.code, preShape(pl.Pre), fc), "verdict-depends-on-object-state"
+	}
+	if sigsOK && sg.SortedAddrs(fresh.SignedAddr) != sg.SortedAddrs(r.signed) {
+		return "signer set depends on the state of the object before validation", "signers-depend-on-object-state"
+	}
+	return "", ""
+}
+
 func tagBucket(tag string) string {
 	q := strings.Split(tag, ":")
 	if q[0] == "valid" && len(q) == 2 {
@@ -375,7 +417,7 @@ func exec1(line string) hx.Result {
 	if !ok {
 		return hx.Result{Out: "bad-op", Kind: "bad-op"}
 	}
-	r := run(pl.Raw, kidTable(pl.KeyID))
+	r := run(pl.Raw, kidTable(pl.KeyID), pl.Pre)
 	res := hx.Result{Out: r.out}
 	if !r.decoded {
 		res.Kind = tagBucket(pl.Tag) + " -> deser-err"
@@ -389,7 +431,10 @@ func exec1(line string) hx.Result {
 		return res
 	}
 	res.Kind = tagBucket(pl.Tag) + " -> " + r.code
-	res.Key = hex.EncodeToString(sg.Sha256d(pl.Raw)[:8])
+	res.Key = hex.EncodeToString(sg.Sha256d(pl.Raw)[:8]) + strings.Join(pl.Pre, ".")
+	if len(pl.Pre) > 0 {
+		res.Kind += " [pre:" + pl.Pre[0][:1] + "]"
+	}
 	h := r.tx.Hash()
 	if !bytes.Equal(h[:], pl.M) {
 		res.Fail, res.Class = "line oracle is for another hash", "harness-oracle"
@@ -420,6 +465,10 @@ func exec1(line string) hx.Result {
 		} else if strings.HasPrefix(pl.Tag, "sigenc:") {
 			obs = append(obs, "re-encoded-signature-accepted")
 		}
+	}
+	if fail, cls := statePredicate(pl, r, sigsOK); fail != "" {
+		res.Fail, res.Class = fail, cls
+		return res
 	}
 	if pl.MutOff >= 0 {
 		base := append([]byte{}, pl.Raw...)
